@@ -268,3 +268,65 @@ package sugardb
 //@     invariant forall k string :: old(has(server.store[database], k)) && !has(server.store[database], k) ==> old(expired(server.store[database][k], $now))
 //@     invariant forall k string :: has(server.store[database], k) ==> old(has(server.store[database], k)) && server.store[database][k] == old(server.store[database][k])
 //@     invariant forall d int :: d != database ==> server.store[d] == old(server.store[d])
+
+// GetServerInfo only reads (configuration, accounted memory, the module list under the commands read lock): assumed.
+//@ func (*SugarDB).GetServerInfo trusted props C08
+//@   modifies nothing
+
+// ---- eviction under a memory limit ---------------------------------------------------------------
+// adjustMemoryUsage (called with the store lock held) removes keys only while the accounted memory is at or above the limit;
+// it only removes keys (never adds or changes one), touches only the database of its context, stops as soon as usage is
+// under the limit, and returns with the locks it was entered with. Which key goes first is the caches' order (their heap
+// contracts, internal/eviction); that volatile policies pick only keys with a deadline is not decided here.
+//@ func (*SugarDB).adjustMemoryUsage props C08,C12,C05
+//@   requires hasdb(ctx) && standalone(server) && server.store[dbof(ctx)] != nil && cachewf(server, dbof(ctx))
+//@   requires server.lfuCache.cache[dbof(ctx)].Mutex != server.lruCache.cache[dbof(ctx)].Mutex
+//@   requires {C05} holds(server.storeLock) && unlocked(server.keysWithExpiry.rwMutex) && unlocked(server.lfuCache.cache[dbof(ctx)].Mutex) && unlocked(server.lruCache.cache[dbof(ctx)].Mutex)
+//@   preserves maps, locks, dbs
+//@   ensures {C08} under-limit: !old(memfull(server)) ==> result == nil && server.memUsed == old(server.memUsed) && (forall k string :: (has(server.store[dbof(ctx)], k) <==> old(has(server.store[dbof(ctx)], k))) && server.store[dbof(ctx)][k] == old(server.store[dbof(ctx)][k]))
+//@   ensures {C08} only-removes: forall k string :: has(server.store[dbof(ctx)], k) ==> old(has(server.store[dbof(ctx)], k)) && server.store[dbof(ctx)][k] == old(server.store[dbof(ctx)][k])
+//@   ensures {C08} stops-allkeys-lfu: result == nil && old(memfull(server)) && lower(server.config.EvictionPolicy) == "allkeys-lfu" ==> !memfull(server)
+//@   ensures {C08} stops-volatile-lfu: result == nil && old(memfull(server)) && lower(server.config.EvictionPolicy) == "volatile-lfu" ==> !memfull(server)
+//@   ensures {C08} stops-allkeys-lru: result == nil && old(memfull(server)) && lower(server.config.EvictionPolicy) == "allkeys-lru" ==> !memfull(server)
+//@   ensures {C08} stops-volatile-lru: result == nil && old(memfull(server)) && lower(server.config.EvictionPolicy) == "volatile-lru" ==> !memfull(server)
+//@   ensures {C08} stops-allkeys-random: result == nil && old(memfull(server)) && lower(server.config.EvictionPolicy) == "allkeys-random" ==> !memfull(server)
+//@   ensures {C08} stops-volatile-random: result == nil && old(memfull(server)) && lower(server.config.EvictionPolicy) == "volatile-random" ==> !memfull(server)
+//@   ensures {C20} otherdbs: forall d int :: d != dbof(ctx) ==> server.store[d] == old(server.store[d])
+//@   ensures {C05} samelocks: holds(server.storeLock) && unlocked(server.keysWithExpiry.rwMutex) && unlocked(server.lfuCache.cache[dbof(ctx)].Mutex) && unlocked(server.lruCache.cache[dbof(ctx)].Mutex)
+//@   ensures {C08} caches: cachewf(server, dbof(ctx))
+//@   loop 0
+//@     invariant wf: inv(server, maps) && inv(server, locks) && inv(server, dbs) && cachewf(server, database)
+//@     invariant db: database == dbof(ctx) && standalone(server) && server.store[database] == old(server.store[database]) && server.store[database] != nil
+//@     invariant lk: holds(server.storeLock) && unlocked(server.keysWithExpiry.rwMutex) && holds(server.lfuCache.cache[database].Mutex) && unlocked(server.lruCache.cache[database].Mutex)
+//@     invariant forall k string :: has(server.store[database], k) ==> old(has(server.store[database], k)) && server.store[database][k] == old(server.store[database][k])
+//@     invariant forall d int :: d != database ==> server.store[d] == old(server.store[d])
+//@   loop 1
+//@     invariant wf: inv(server, maps) && inv(server, locks) && inv(server, dbs) && cachewf(server, database)
+//@     invariant db: database == dbof(ctx) && standalone(server) && server.store[database] == old(server.store[database]) && server.store[database] != nil
+//@     invariant lk: holds(server.storeLock) && unlocked(server.keysWithExpiry.rwMutex) && holds(server.lruCache.cache[database].Mutex) && unlocked(server.lfuCache.cache[database].Mutex)
+//@     invariant forall k string :: has(server.store[database], k) ==> old(has(server.store[database], k)) && server.store[database][k] == old(server.store[database][k])
+//@     invariant forall d int :: d != database ==> server.store[d] == old(server.store[d])
+//@   loop 2
+//@     invariant wf: inv(server, maps) && inv(server, locks) && inv(server, dbs) && cachewf(server, database)
+//@     invariant db: database == dbof(ctx) && standalone(server) && server.store[database] == old(server.store[database]) && server.store[database] != nil
+//@     invariant lk: holds(server.storeLock) && unlocked(server.keysWithExpiry.rwMutex) && unlocked(server.lfuCache.cache[database].Mutex) && unlocked(server.lruCache.cache[database].Mutex)
+//@     invariant forall k string :: has(server.store[database], k) ==> old(has(server.store[database], k)) && server.store[database][k] == old(server.store[database][k])
+//@     invariant forall d int :: d != database ==> server.store[d] == old(server.store[d])
+//@   loop 3
+//@     invariant wf: inv(server, maps) && inv(server, locks) && inv(server, dbs) && cachewf(server, database)
+//@     invariant db: database == dbof(ctx) && standalone(server) && server.store[database] == old(server.store[database]) && server.store[database] != nil
+//@     invariant lk: holds(server.storeLock) && unlocked(server.keysWithExpiry.rwMutex) && unlocked(server.lfuCache.cache[database].Mutex) && unlocked(server.lruCache.cache[database].Mutex)
+//@     invariant forall k string :: has(server.store[database], k) ==> old(has(server.store[database], k)) && server.store[database][k] == old(server.store[database][k])
+//@     invariant forall d int :: d != database ==> server.store[d] == old(server.store[d])
+//@   loop 4
+//@     invariant wf: inv(server, maps) && inv(server, locks) && inv(server, dbs) && cachewf(server, database)
+//@     invariant db: database == dbof(ctx) && standalone(server) && server.store[database] == old(server.store[database]) && server.store[database] != nil
+//@     invariant lk: holds(server.storeLock) && unlocked(server.keysWithExpiry.rwMutex) && unlocked(server.lfuCache.cache[database].Mutex) && unlocked(server.lruCache.cache[database].Mutex)
+//@     invariant forall k string :: has(server.store[database], k) ==> old(has(server.store[database], k)) && server.store[database][k] == old(server.store[database][k])
+//@     invariant forall d int :: d != database ==> server.store[d] == old(server.store[d])
+//@   loop 5
+//@     invariant wf: inv(server, maps) && inv(server, locks) && inv(server, dbs) && cachewf(server, database)
+//@     invariant db: database == dbof(ctx) && standalone(server) && server.store[database] == old(server.store[database]) && server.store[database] != nil
+//@     invariant lk: holds(server.storeLock) && unlocked(server.keysWithExpiry.rwMutex) && unlocked(server.lfuCache.cache[database].Mutex) && unlocked(server.lruCache.cache[database].Mutex)
+//@     invariant forall k string :: has(server.store[database], k) ==> old(has(server.store[database], k)) && server.store[database][k] == old(server.store[database][k])
+//@     invariant forall d int :: d != database ==> server.store[d] == old(server.store[d])
